@@ -23,3 +23,13 @@ func VerifGenerateWith(p *protogen.Plugin) error { return New(p).Generate() }
 
 func VerifSnakeToUpperCamel(s string) string  { return snakeToUpperCamel(s) }
 func VerifHeaderNameToFuncName(s string) string { return headerNameToFuncName(s) }
+
+// VerifURLLines returns the Go lines the client emits to build the request URL of a method.
+func VerifURLLines(svc *protogen.Service, m *protogen.Method) *protogen.Plugin {
+	p := &protogen.Plugin{}
+	g := New(p)
+	gf := p.NewGeneratedFile("url.go", "")
+	c := g.buildRPCMethodConfig(svc, m)
+	g.generateURLBuilding(gf, c.fullPath, c.pathParams, c.queryParams, c.httpMethod)
+	return p
+}
